@@ -203,6 +203,33 @@ func genC19(rt *rapid.T, h *harness.H) interface{} {
 		}
 		c.Progs = append(c.Progs, progC19{Text: p.Text(nil), Class: "accept", Contraction: hasContraction(p)})
 		for i := 1; i < np; i++ {
+			if d.Chance(25, "stripped") {
+				// the same program without its function definitions, or without its type definitions:
+				// every call / type name dangles, so it must be rejected - whatever an earlier run of the
+				// full program left behind under those names
+				what := ast.DFun
+				cl := "reject"
+				if d.Bool("striptypes") {
+					what = ast.DType
+				}
+				q := &ast.Program{}
+				dropped := 0
+				for _, dc := range p.Decls {
+					if dc.Kind == what {
+						dropped++
+						continue
+					}
+					q.Decls = append(q.Decls, dc)
+				}
+				if dropped > 0 {
+					v, _ := refcheck.Program(q, true)
+					if !v.Unknown && !v.Accept {
+						c.Progs = append(c.Progs, progC19{Text: q.Text(nil), Class: cl})
+						h.S.Count("family_member_with_definitions_stripped")
+						continue
+					}
+				}
+			}
 			kind := d.Of([]string{"typedef-change", "typedef-change", "typedef-change", "ann-inequivalent", "wrong-label", "swap-send-args", "ret-mode"}, "famkind")
 			q, _, ok := d.Mutate(p, kind)
 			if !ok {
